@@ -104,7 +104,11 @@ def insitu_stylesheet(exprs, strip=False):
              '<xsl:for-each select="//node()|//@*|/">']
     for i, e in enumerate(exprs):
         t = esc_sel(e)
-        parts.append('<c i="%d">' % i)
+        parts.append('<c i="%d" g="{generate-id()}">' % i)
+        # numeric observers: an operand of arithmetic, a numeric function argument, xsl:number value= (sort keys below)
+        parts.append('<n><xsl:value-of select="number(%s)"/></n><n1><xsl:value-of select="(%s) + 0"/></n1>' % (t, t))
+        parts.append('<u><xsl:value-of select="substring(\'0123456789\', %s)"/></u><u2><xsl:value-of select="substring(\'0123456789\', number(%s))"/></u2>' % (t, t))
+        parts.append('<k><xsl:number value="%s"/></k><k2><xsl:number value="number(%s)"/></k2>' % (t, t))
         parts.append('<i><xsl:if test="%s">T</xsl:if></i>' % t)
         parts.append('<w><xsl:choose><xsl:when test="%s">T</xsl:when><xsl:otherwise/></xsl:choose></w>' % t)
         parts.append('<b><xsl:if test="boolean(%s)">T</xsl:if></b>' % t)
@@ -115,7 +119,12 @@ def insitu_stylesheet(exprs, strip=False):
         parts.append('<s2><xsl:value-of select="concat(\'[\', string(%s), \']\')"/></s2>' % t)
         parts.append('<t><xsl:variable name="v" select="%s"/><xsl:value-of select="string($v)"/></t>' % t)
         parts.append('</c>')
-    parts.append('</xsl:for-each></out></xsl:template></xsl:stylesheet>')
+    parts.append('</xsl:for-each>')
+    for i, e in enumerate(exprs):
+        # the expression as a numeric sort key: the order must be the one number(E) of each node gives (NaN first, stable)
+        parts.append('<so i="%d"><xsl:for-each select="//node()|//@*|/"><xsl:sort select="%s" data-type="number"/><g><xsl:value-of select="generate-id()"/></g></xsl:for-each></so>'
+                     % (i, esc_sel(e)))
+    parts.append('</out></xsl:template></xsl:stylesheet>')
     return ''.join(parts)
 
 
@@ -146,15 +155,17 @@ def insitu_shard(shard, nshards, tier):
             return
         out = R.parse_xml(r[2])
         flagged = set()
+        numkeys = {}       # expression index -> [(generate-id, number(E) as text)] in document order
         for c in out.docel.children:
-            if c.kind != R.ELEM:
+            if c.kind != R.ELEM or c.local != 'c':
                 continue
             i = int(c.attrs[0].value)
             f = {}
             for k in c.children:
                 if k.kind == R.ELEM:
                     f[k.local] = k.attrs[0].value if k.local in ('a', 'a2') else k.string_value()
-            counts['insitu_observations'] += 6
+            numkeys.setdefault(i, []).append((c.attrs[1].value, f.get('n')))
+            counts['insitu_observations'] += 10
             fam, text, ast = batch[i]
             probs = []
             if f.get('i') != f.get('b'):
@@ -169,9 +180,32 @@ def insitu_shard(shard, nshards, tier):
                 probs.append('variable')
             if f.get('a2') != f.get('s2'):
                 probs.append('avt-with-text')
+            if f.get('n1') != (f.get('n') if f.get('n') != '-0' else '0'):
+                probs.append('arithmetic-operand')
+            if f.get('u') != f.get('u2'):
+                probs.append('function-argument')
+            if f.get('k') != f.get('k2'):
+                probs.append('xsl:number-value')
             if probs and i not in flagged:
                 flagged.add(i)
                 viols.append(('insitu-%s|%s|%s' % (fam, '+'.join(probs), text), {'expr': text, 'doc': d.name, 'observed': f}))
+        for so in out.docel.children:
+            if so.kind != R.ELEM or so.local != 'so':
+                continue
+            i = int(so.attrs[0].value)
+            if i in flagged or i not in numkeys:
+                continue
+            got = [g.string_value() for g in so.children if g.kind == R.ELEM]
+
+            def keyf(t):
+                return (0, 0.0) if t == 'NaN' else (1, float(t.replace('Infinity', 'inf')))
+            want = [gid for gid, _ in sorted(numkeys[i], key=lambda x: keyf(x[1]))]      # sorted() is stable
+            counts['insitu_observations'] += 1
+            if got != want:
+                fam, text, ast = batch[i]
+                flagged.add(i)
+                viols.append(('insitu-%s|sort-key|%s' % (fam, text), {'expr': text, 'doc': d.name, 'keys_in_document_order': [k for _, k in numkeys[i]][:40],
+                                                                       'first_difference': next((j for j in range(min(len(got), len(want))) if got[j] != want[j]), None)}))
 
     for bi, batch in enumerate(batches):
         if bi % nshards != shard:
@@ -215,8 +249,9 @@ def main():
                 'TOP-LEVEL node) x documents x every context node: XPath::execute(bool&), (double&), (XalanDOMString&) into an empty and '
                 'into a non-empty string, (FormatterListener&, fn), (MutableNodeRefList&) must equal boolean()/num()/str()/nodeset() of '
                 'the generic execute() result of the same object; an error in one entry point must be an error in all. In situ: xsl:if, '
-                'xsl:when, xsl:value-of, attribute value template and a variable observe boolean()/string() of the same expression for '
-                'every node of a document as current node. A case is an expression text; non-trivial = the generic evaluation succeeds '
+                'xsl:when, xsl:value-of, attribute value template, a variable, an arithmetic operand, a numeric function argument, xsl:number '
+                'value= and a numeric xsl:sort key observe boolean()/string()/number() of the same expression for every node of a document '
+                'as current node (the sorted order must be the stable order of the observed number() values, NaN first). A case is an expression text; non-trivial = the generic evaluation succeeds '
                 'in some context.',
         'samples': [x for r in res for x in r['samples']][:6] or ['none'],
         'cases': counts['cases'], 'top_level_node_kinds': tops, 'generic_errors': counts['generic_errors'],
